@@ -38,6 +38,42 @@ def server_roles(ctx):
     return roles.ctor_field_roles(ctx, "server::SrpProof::into_server", "server::SrpServer", {}, extra) or {}
 
 
+
+def refresh_obligation(ctx, rep, sr=None, rule_refresh="refresh", rule_frame="frame"):
+    """every path through verify_reconnection_attempt ends with the challenge field - and only
+    it - overwritten by a FRESH value (shared with C15)"""
+    if sr is None:
+        sr = roles.inv(server_roles(ctx))
+        if "challenge" not in sr:
+            rep.violation(rule_refresh, FN, "challenge", "cannot bind the challenge role to a field of SrpServer")
+            return
+    body = ctx.fb.body(FN)
+    if body is None:
+        rep.violation(rule_refresh, FN, "challenge", "function not found")
+        return
+    dse = ctx.deep.run(FN)
+    eff = dse.param_effects().get(1)
+    if eff is None:
+        rep.violation(rule_refresh, FN, "challenge", "no path overwrites the server challenge", body.loc())
+    elif eff[0] == "phi":
+        rep.violation(rule_refresh, FN, "challenge", "the server challenge is not replaced on every path (object state differs between return paths)", body.loc())
+    else:
+        fields = []
+        t = eff
+        while t[0] == "upd" and t[2][0] == "f":
+            fields.append((t[2][1], t[3]))
+            t = t[1]
+        whole = t == ("deref", ("param", 1))
+        ch = [v for i, v in fields if i == sr["challenge"]]
+        if ch:
+            okf, whyf = util.fresh(ctx, canon(ctx, dse, ch[0]))
+            rep.check(okf, rule_refresh, FN, "challenge", "every attempt ends with the challenge overwritten: " + whyf, "challenge is overwritten, but not with a fresh full-width CSPRNG value: " + whyf, body.loc())
+        else:
+            rep.violation(rule_refresh, FN, "challenge", "the object is modified but the challenge field is not replaced", body.loc())
+        others = [i for i, v in fields if i != sr["challenge"]]
+        rep.check(whole and not others, rule_frame, FN, "only-challenge", "write frame of the call = {challenge field}", "the call also modifies other state (fields %s) - username/session key must survive every attempt" % others, body.loc())
+
+
 def check(ctx, rep):
     fb = ctx.fb
     sr = roles.inv(server_roles(ctx))
@@ -97,28 +133,7 @@ def check(ctx, rep):
         rep.check(good, "result", FN, "return", "true only behind the equal edge, false only behind the unequal edge", "returned boolean is not determined by the proof comparison alone", body.loc())
     else:
         rep.violation("result", FN, "return", "returned value is not the proof comparison: %s" % show(ret, maxdepth=3), body.loc())
-    # ---- refresh on every path, FRESH, after the read; frame = that field only
-    dse = ctx.deep.run(FN)
-    eff = dse.param_effects().get(1)
-    if eff is None:
-        rep.violation("refresh", FN, "challenge", "no path overwrites the server challenge", body.loc())
-    elif eff[0] == "phi":
-        rep.violation("refresh", FN, "challenge", "the server challenge is not replaced on every path (object state differs between return paths)", body.loc())
-    else:
-        fields = []
-        t = eff
-        while t[0] == "upd" and t[2][0] == "f":
-            fields.append((t[2][1], t[3]))
-            t = t[1]
-        whole = t == ("deref", ("param", 1))
-        ch = [v for i, v in fields if i == sr["challenge"]]
-        if ch:
-            okf, whyf = util.fresh(ctx, canon(ctx, dse, ch[0]))
-            rep.check(okf, "refresh", FN, "challenge", "every attempt ends with the challenge overwritten: " + whyf, "challenge is overwritten, but not with a fresh full-width CSPRNG value: " + whyf, body.loc())
-        else:
-            rep.violation("refresh", FN, "challenge", "the object is modified but the challenge field is not replaced", body.loc())
-        others = [i for i, v in fields if i != sr["challenge"]]
-        rep.check(whole and not others, "frame", FN, "only-challenge", "write frame of the call = {challenge field}", "the call also modifies other state (fields %s) - username/session key must survive every attempt" % others, body.loc())
+    refresh_obligation(ctx, rep, sr)
     # ---- transcript
     pse = ctx.wrap.run("srp_internal::calculate_reconnect_proof")
     if pse is None:
